@@ -59,7 +59,10 @@ def run(ctx, out):
         for i in sorted(idx):
             rel = entries[i][0]
             tp = treecase.rust_join(tbase, rel)
-            os.makedirs(os.path.dirname(tp), exist_ok=True)
+            try:
+                os.makedirs(os.path.dirname(tp), exist_ok=True)
+            except OSError:
+                continue          # an ancestor is already occupied by an earlier (non-directory) collision
             if os.path.lexists(tp):
                 continue
             kind = directed[0] if directed else rng.choice(["file", "dir", "fifo", "dangling", "livelink"])
